@@ -353,6 +353,11 @@ def match_known(known, prop, clauses, event, case_ops, events=()):
             if _get(event, path) != val:
                 ok = False
                 break
+        for path, sub in (k.get("event_contains") or {}).items():
+            val = _get(event, path)
+            if not (isinstance(val, str) and sub in val):
+                ok = False
+                break
         if ok and k.get("anyop"):
             ok = any(all(_get(op, p) == v for p, v in k["anyop"].items()) for op in case_ops if isinstance(op, dict))
         if ok and k.get("anyevent"):
